@@ -154,8 +154,7 @@ class GridKernel(Kernel):
                     covars = covars.squeeze(-2)  # Get rid of the dimension corresponding to the first point
                     # Un-pad the grid
                     covars = [ToeplitzLinearOperator(covars[..., i, : proj.size(-1)]) for i, proj in enumerate(grid)]
-                    # Due to legacy reasons, KroneckerProductLinearOperator(A, B, C) is actually (C Kron B Kron A)
-                    covar = KroneckerProductLinearOperator(*covars[::-1])
+                    covar = KroneckerProductLinearOperator(*self._kronecker_order(covars))
             else:
                 full_grid = torch.stack(padded_grid, dim=-1)
                 with warnings.catch_warnings():  # Hide the GPyTorch 2.0 deprecation warning
@@ -166,7 +165,7 @@ class GridKernel(Kernel):
                     covar = covars
                 else:
                     covars = [covars[..., i, : proj.size(-1), : proj.size(-1)] for i, proj in enumerate(self.grid)]
-                    covar = KroneckerProductLinearOperator(*covars[::-1])
+                    covar = KroneckerProductLinearOperator(*self._kronecker_order(covars))
 
             if not self.training:
                 self._cached_kernel_mat = covar
@@ -174,6 +173,12 @@ class GridKernel(Kernel):
             return covar
         else:
             return self.base_kernel.forward(x1, x2, diag=diag, last_dim_is_batch=last_dim_is_batch, **params)
+
+    def _kronecker_order(self, covars):
+        # A (x) B enumerates the LAST factor fastest. The explicit grid points (create_data_from_grid) run through the first
+        # dimension fastest, the flat indices of cubic interpolation through the last dimension fastest: the factor order has
+        # to follow the enumeration of whoever indexes the result.
+        return covars if self.interpolation_mode else covars[::-1]
 
     def num_outputs_per_input(self, x1, x2):
         return self.base_kernel.num_outputs_per_input(x1, x2)
